@@ -1,11 +1,10 @@
 (* C09 — Colours are stored exactly; colour forms and blending follow the tables.
    Statements only; proofs in proofs/ColorProofs.v.
-   Pending (kept visible): palette_roundtrip — every suggested palette whose entries are valid premultiplied
-   colours decodes to the same 64 entries.  The writer (Encoder.palette_chunk) and the reader
-   (Decoder.read_palette) are modelled and compared with the implementation on every run, but the
-   list induction tying them is not finished; the per-colour round trips below are its core. *)
+   palette_roundtrip (proof in proofs/MetaRT.v): every suggested palette of 64 valid premultiplied colours,
+   written in whichever of the four forms Encoder.palette_chunk picks, is read back by Decoder.read_palette
+   as the same 64 entries. *)
 From Coq Require Import ZArith Bool List.
-From IVG Require Import SF NumCodec Color NumBase ColorProofs Tables.
+From IVG Require Import SF NumCodec Color Calls Decoder Encoder NumBase ColorProofs Tables RoundTrip MetaRT.
 Import ListNotations.
 Local Open Scope Z_scope.
 
@@ -92,3 +91,15 @@ Example ex_blend : resolve (repeat opaque_black 64) (repeat opaque_black 64) (CB
 Proof. vm_compute. auto. Qed.
 Example ex_enc : enc_color (CRGBA (mkRGBA 64 64 64 64)) = (152, [64; 64; 64; 64]) /\ enc_color (CRGBA (mkRGBA 68 68 68 68)) = (136, [68; 68]).
 Proof. vm_compute. auto. Qed.
+
+Theorem palette_roundtrip : forall pal rest, wf_pal pal -> (1 <= explicit_count pal)%nat ->
+  exists h body, palette_chunk pal = h :: body /\ 0 <= h < 256 /\
+    exists its, read_palette (Z.to_nat (1 + h mod 64)) 0 (h / 64) default_palette (body ++ rest) = (its, Some (pal, rest))
+                /\ calls_of its = [].
+Proof. exact MetaRT.palette_chunk_decode. Qed.
+Print Assumptions palette_roundtrip.
+
+(* a palette with a translucent entry (the repaired defect's input) meets the hypotheses *)
+Example ex_palette : let pal := mkRGBA 64 64 64 64 :: repeat opaque_black 63 in
+  length pal = 64%nat /\ explicit_count pal = 1%nat /\ forallb valid_premul pal = true.
+Proof. vm_compute. repeat split; reflexivity. Qed.
